@@ -200,8 +200,10 @@ def engine_case(fn, items, dmax, origin):
                 segs.append("ln"); stopped = True; continue
             weff = it.w[:prec] if prec else it.w        # wcsnlen_s(lp, precision): only the first `precision` characters are converted
             l = len(weff)
-            if l == 0 or any(c >= 0x80 for c in weff):
-                segs.append("lc"); stopped = True; conv_code = 406 if l == 0 else 84; continue
+            # an empty wide string converts to nothing since fix commit 73ef752 (wcstombs_s accepted no empty conversion
+            # before: `%ls` of L"" failed with ESNOSPC); only a character outside the C locale's range fails
+            if any(c >= 0x80 for c in weff):
+                segs.append("lc"); stopped = True; conv_code = 84; continue
             if cap is not None and l + idx > cap:
                 segs.append("lt"); stopped = True; continue
             pad = max(0, it.width - l)
